@@ -1002,6 +1002,9 @@ class Policy:
                 nxt = [i for i in ids if i > (self.last if self.last is not None else -1)]
                 wid = nxt[0] if nxt else ids[0]
                 w = [x for x in avail if x.wid == wid][0]
+            elif self.base == 'stay':
+                stay = [x for x in avail if x.wid == self.last]
+                w = stay[0] if stay else min(avail, key=lambda x: x.wid)
             elif self.base == 'serial':
                 w = min(avail, key=lambda x: x.wid)
             elif self.base == 'reverse':
@@ -1055,6 +1058,8 @@ class Runtime:
         self.workers = []
         self.phase_marks = []       # trace index at which each phase starts
         self.fn_log = []            # (trace index, wid, tid, received canon) per function call
+        self.alts = []              # per phase, per step: the workers that could have been chosen
+        self.coarse = bool(sc.get('coarse'))   # scheduling points only at store / lock calls, function return and sleep
         self.stopfile = None
 
     # -- helpers used from worker threads (only the running worker calls them)
@@ -1084,6 +1089,8 @@ class Runtime:
     def point(self, w, kind, tid):
         if w.dead:
             raise _Killed()
+        if self.coarse and kind in ('start', 'hook_pre', 'hook_exec1'):
+            return
         with self.cv:
             w.pending = (kind, tid)
             w.npoints += 1
@@ -1233,6 +1240,7 @@ class Runtime:
             pol['script'] = ph['decisions']
         policy = Policy(pol, [w.wid for w in workers])
         decisions = []
+        self.alts.append([])
         for w in workers:
             w.thread = threading.Thread(target=self.worker_main, args=(w,), daemon=True)
             w.thread.start()
@@ -1254,6 +1262,7 @@ class Runtime:
                     raise HarnessError('run exceeds %d steps' % MAX_STEPS)
                 w, act = policy.choose(parked, step)
                 decisions.append([w.wid, act])
+                self.alts[-1].append(sorted(x.wid for x in parked))
                 if act == 'crash':
                     self.log(('ECrash', w.wid))
                 elif act.startswith('intr'):
@@ -1468,6 +1477,7 @@ def run_scenario(sc):
     res.refs = refs
     res.workers = [(w.wid, w.exit_code, w.dead, w.interrupted) for w in rt.workers]
     res.kinds = {w.wid: list(w.kinds) for w in rt.workers}
+    res.alts = rt.alts
     res.ntasks = len(sc['program']['tasks'])
     return res
 
@@ -1879,6 +1889,7 @@ class Batch:
         self.items = []       # (sc, res, case text)
         self.found = []       # direct-oracle findings, reported after the Coq verdicts
         self.harness_errors = 0
+        self.chunk = 0
 
     def run(self, sc, oracles=()):
         """run one scenario, apply the direct oracles (functions (sc, res) -> list of finding dicts), queue the Coq case"""
@@ -1898,6 +1909,8 @@ class Batch:
         for f in found:
             self.found.append((sc, res, f))
         self.items.append((sc, res, case_coq(sc, res)))
+        if len(self.items) >= 1600:
+            self.flush_coq()
         ck.count('backend:' + sc.get('backend', 'dict'))
         ck.count('workers:%d' % sum(len(ph['workers']) for ph in sc['phases']))
         ck.count('tasks:%d' % res.ntasks)
@@ -1922,7 +1935,10 @@ class Batch:
         if not self.items:
             return
         cases = [c for _, _, c in self.items]
-        failing = ck.cases(self.name, IMPORTS, 'exec_case', 'exec_case_ok', cases, shard=60)
+        shard = min(60, max(8, (len(cases) + 15) // 16))
+        name = self.name if self.chunk == 0 else '%s%d' % (self.name, self.chunk)
+        self.chunk += 1
+        failing = ck.cases(name, IMPORTS, 'exec_case', 'exec_case_ok', cases, shard=shard)
         if failing:
             for idx in failing[:4]:
                 sc, res, text = self.items[idx]
@@ -1941,7 +1957,7 @@ class Batch:
                     ck.broken.append('exec_case_diag did not evaluate: ' + d['error'].replace('\n', ' | '))
             for idx in failing[4:]:
                 ck.suppressed += 1
-        seqf = ck.cases(self.name + '_seq', IMPORTS, 'exec_case', 'final_is_sequential', cases, shard=60)
+        seqf = ck.cases(name + '_seq', IMPORTS, 'exec_case', 'final_is_sequential', cases, shard=shard)
         for idx in (seqf or [])[:3]:
             sc, res, text = self.items[idx]
             ck.violation(replay_obj(sc, res, {'kind': 'correspondence', 'what': 'final-store-not-sequential',
@@ -2030,6 +2046,43 @@ def closed_subset(rng, spec, p=0.5, only_ok=None):
 
 def nontrivial_deps(spec):
     return sum(1 for ts in spec['tasks'] if task_deps_spec(ts))
+
+
+def count_preemptions(seq, alts):
+    n = 0
+    for i in range(1, len(seq)):
+        if seq[i] != seq[i - 1] and seq[i - 1] in alts[i]:
+            n += 1
+    return n
+
+
+def enumerate_schedules(batch, sc0, oracles, max_preempt=None, max_runs=100000):
+    """run EVERY schedule of phase 0 of sc0 (optionally: every schedule with at most `max_preempt` preemptions), depth first.
+    Each node re-executes the program under a scripted prefix and continues without preemption.  -> (runs, exhausted?)"""
+    stack = [[]]
+    runs = 0
+    while stack:
+        if runs >= max_runs:
+            return runs, False
+        prefix = stack.pop()
+        sc = copy.deepcopy(sc0)
+        sc['phases'][0]['policy'] = {'base': 'stay', 'flavour': 'enumerated'}
+        sc['phases'][0]['decisions'] = [[w, 'go'] for w in prefix]
+        res = batch.run(sc, oracles)
+        runs += 1
+        if res is None:
+            continue
+        seq = [d[0] for d in res.decisions[0]]
+        alts = res.alts[0]
+        if seq[:len(prefix)] != prefix:
+            raise HarnessError('enumeration: the scripted prefix was not followed (non-deterministic run?)')
+        for i in range(len(seq) - 1, len(prefix) - 1, -1):
+            for a in alts[i]:
+                if a != seq[i]:
+                    cand = seq[:i] + [a]
+                    if max_preempt is None or count_preemptions(cand, alts) <= max_preempt:
+                        stack.append(cand)
+    return runs, True
 
 
 # ================================================================ sanity (spec 1.6)
